@@ -161,8 +161,9 @@ func (dm *DMap) deleteKeys(ctx context.Context, keys ...string) (int, error) {
 			if err != nil {
 				return 0, protocol.ConvertError(err)
 			}
-
-			return 0, protocol.ConvertError(cmd.Err())
+			if err = cmd.Err(); err != nil {
+				return 0, protocol.ConvertError(err)
+			}
 		}
 	}
 
